@@ -15,14 +15,14 @@ Theorem run_timeout_mon c :
   mon_C19 c (fst (run_timeout c)) (snd (run_timeout c)) (inner_dropped_at c) = true.
 Proof.
   unfold inner_dropped_at, mon_C19, run_timeout, poll_at, next_wake.
-  destruct c as [d p0 [ti|] res]; cbn [t_d t_p0 t_ti t_res]; crush.
+  destruct c as [d p0 [ti|] res hand]; cbn [t_d t_p0 t_ti t_res]; crush.
 Qed.
 
 (* resolves by the deadline, for a promptly polled future *)
 Theorem run_timeout_deadline c : t_p0 c <= t_d c -> snd (run_timeout c) <= t_d c /\ fst (run_timeout c) <> TNever.
 Proof.
   unfold run_timeout, poll_at, next_wake.
-  destruct c as [d p0 [ti|] res]; cbn [t_d t_p0 t_ti t_res]; intros Hp;
+  destruct c as [d p0 [ti|] res hand]; cbn [t_d t_p0 t_ti t_res]; intros Hp;
     repeat (match goal with
             | |- context [N.leb ?a ?b] => destruct (N.leb_spec a b)
             end; cbn [fst snd]); split; try lia; discriminate.
@@ -37,8 +37,13 @@ Theorem run_timeout_result c :
   end.
 Proof.
   unfold run_timeout, poll_at, next_wake.
-  destruct c as [d p0 [ti|] res]; cbn [t_d t_p0 t_ti t_res];
+  destruct c as [d p0 [ti|] res hand]; cbn [t_d t_p0 t_ti t_res];
     repeat (match goal with
             | |- context [N.leb ?a ?b] => destruct (N.leb_spec a b)
             end; cbn [fst snd]); try reflexivity; lia.
 Qed.
+
+(* who drives the future (the task of the first poll or another one it was handed to) changes nothing *)
+Theorem run_timeout_handover d p0 ti res h1 h2 :
+  run_timeout (mkT d p0 ti res h1) = run_timeout (mkT d p0 ti res h2).
+Proof. reflexivity. Qed.
